@@ -115,6 +115,22 @@ def main(argv):
                 bad.append(d.name)
         print("NOT CAUGHT (or tests broken):", bad)
         return
+    if argv[0] == "collect":
+        # collect <worktree> <new id> <property> <summary> <needs_to_manifest>: take the uncommitted diff + demo of a sub-agent's worktree
+        wt, sid, prop, summary, needs = argv[1:6]
+        d = SEEDED / sid
+        d.mkdir(parents=True, exist_ok=False)
+        rc, diff = sh(["git", "-C", wt, "diff"])
+        (d / "patch.diff").write_text(diff)
+        rc, names = sh(["git", "-C", wt, "diff", "--name-only"])
+        demos = [p for p in Path(wt).iterdir() if p.name.startswith("demo") and p.suffix == ".py"]
+        for p in demos[:1]:
+            (d / p.name).write_text(p.read_text())
+        (d / "meta.json").write_text(json.dumps({"property": prop, "summary": summary, "needs_to_manifest": needs,
+                                                 "origin": "independent sub-agent given only the property text and a scratch worktree",
+                                                 "files_changed": [n for n in names.split("\n") if n]}, indent=1))
+        print("collected", sid, [n for n in names.split("\n") if n], [p.name for p in demos])
+        return
     if argv[0] == "eval":
         sid = argv[1]
         tier = "quick"
